@@ -17,6 +17,9 @@ def BiCGSTAB_reset(Op,rhs,x0,eps=1e-6,nmax=40):
     """ 
     # initial residual
     r = rhs - Op.matvec(x0)
+    if not tn.linalg.norm(r) > 0:
+        # x0 already solves the system (the loop below would never find a shadow residual)
+        return x0, True, 0, tn.linalg.norm(r)
     
     # choose rop
     r0p = tn.rand(r.shape,dtype = x0.dtype)
